@@ -140,6 +140,17 @@ def run(chk):
     hs = set(map(tuple, hists))
     maximal = [h for h in hs if not any(len(o) > len(h) and o[:len(h)] == h for o in hs)]
     maximal.sort()
+    chk.extra["maximal_histories_enumerated"] = len(maximal)
+    CAP = 3000
+    if thorough and len(maximal) > CAP:
+        # thorough tier: every maximal history of up to 3 runs, and an evenly spread selection of the longer ones (the real binary is run
+        # 4 times x 12 language / mode configurations per history: the whole set would take hours)
+        short = [h for h in maximal if len(h) <= 3]
+        long_ = [h for h in maximal if len(h) > 3]
+        step = max(1, len(long_) // max(1, CAP - len(short)))
+        maximal = sorted(short + long_[chk.seed % step::step])
+        chk.exhaustive = False
+        chk.extra["maximal_histories_replayed"] = len(maximal)
     chk.sample({"history": list(maximal[0])})
     chk.sample({"history": list(maximal[len(maximal) // 2])})
     langs = common.LANGS if thorough else ["typescript", "swift"]
